@@ -299,6 +299,7 @@ func init() {
 		},
 		"verifMapOrder":   func(fr *frame, a []value) value { PermuteMaps = a[0].(bool); return nil },
 		"verifSchedules":  func(fr *frame, a []value) value { ExploreSchedules = a[0].(bool); return nil },
+		"verifRaces": func(fr *frame, a []value) value { RaceOn = a[0].(bool); return nil },
 		"verifPreemptions": func(fr *frame, a []value) value { MaxPreemptions = int(asInt64(a[0])); return nil },
 		"verifSymbolic":   func(fr *frame, a []value) value { return true },
 		"verifConcretize": func(fr *frame, a []value) value { return int(asInt64(a[0])) },
